@@ -66,13 +66,16 @@ func (fr *Frame) afterCall(st *State, key string, c *ssa.CallCommon, res []Term,
 	fc := fr.fc
 	ord := fr.siteOrd[c]
 	sk := shortKey(key)
-	names := []string{fmt.Sprintf("%s@%d", sk, ord)}
+	names := []string{fmt.Sprintf("%s@%d", sk, ord), fmt.Sprintf("%s@*", sk)}
 	if i := strings.LastIndex(sk, "."); i >= 0 {
 		names = append(names, fmt.Sprintf("%s@%d", sk[i+1:], ord))
 	}
 	for _, name := range names {
 		for _, cl := range fr.spec.AfterCalls[name] {
 			env := &Env{fc: fc, fr: fr, st: st, old: fr.top().entry, vars: map[string]Term{}, pkgName: fr.fn.Pkg.Pkg.Name(), at: fr.curBlock}
+			for i, a := range fr.callArgs[c] {
+				env.vars[fmt.Sprintf("$%d", i)] = a // the call's arguments (receiver first)
+			}
 			if len(res) > 0 {
 				r := res[0]
 				if r.T == nil {
@@ -109,6 +112,10 @@ func (fr *Frame) doCallInner(st *State, instr ssa.Value, c *ssa.CallCommon, pos 
 	}
 	key, fn := fr.calleeKey(c)
 	sig := c.Signature()
+	if fr.callArgs == nil {
+		fr.callArgs = map[*ssa.CallCommon][]Term{}
+	}
+	fr.callArgs[c] = args
 	if key != "" {
 		if top := fr.top(); top.spec != nil && top.spec.Flags["assumepre"] != "" {
 			// callee preconditions stand for the representation invariant assumed by the caller's
@@ -154,6 +161,12 @@ func (fr *Frame) doCallInner(st *State, instr ssa.Value, c *ssa.CallCommon, pos 
 	if spec == nil && fn != nil && fn.Pkg == nil && fn.Object() != nil && fn.Object().Pkg() != nil {
 		// external function: contract under its own package name
 		spec = fc.w.specs.Funcs[fn.Object().Pkg().Name()+"."+strings.TrimPrefix(key, fn.Object().Pkg().Name()+".")]
+	}
+	if fn != nil && (spec == nil || spec.Inline) && fc.genericSortMismatch(fn, sig) {
+		// an instance of a generic function whose type parameters are instantiated with types of
+		// a different logical sort (e.g. T := a struct): the origin body cannot be inlined here
+		fc.note("generic callee instantiated at a different sort, treated by its inferred frame: " + key)
+		return fr.unknownCall(st, key, sig, fn, pos)
 	}
 	if spec != nil && spec.Inline && fn != nil && len(fn.Blocks) > 0 && fr.depth < maxInlineDepth {
 		return fr.inlineCall(st, fn, spec, args, fr.closures[c.Value], pos)
@@ -1141,3 +1154,26 @@ func (fr *Frame) loopWrites(li *loopInfo) (locals []*ssa.Alloc, comps []string, 
 
 // recordClose is a hook for the "closes" effect (ghost bookkeeping of which channels a function closes).
 func (fr *Frame) recordClose(st *State, ch Term, pos token.Pos) {}
+
+// genericSortMismatch reports whether the (origin) function fn is called through an instantiated
+// signature some parameter or result of which has another SMT sort than in the origin.
+func (fc *FnCtx) genericSortMismatch(fn *ssa.Function, inst *types.Signature) bool {
+	orig := fn.Signature
+	if orig == nil || inst == nil || orig == inst {
+		return false
+	}
+	if orig.Params().Len() != inst.Params().Len() || orig.Results().Len() != inst.Results().Len() {
+		return false
+	}
+	for i := 0; i < orig.Params().Len(); i++ {
+		if fc.sortOf(orig.Params().At(i).Type()) != fc.sortOf(inst.Params().At(i).Type()) {
+			return true
+		}
+	}
+	for i := 0; i < orig.Results().Len(); i++ {
+		if fc.sortOf(orig.Results().At(i).Type()) != fc.sortOf(inst.Results().At(i).Type()) {
+			return true
+		}
+	}
+	return false
+}
